@@ -165,3 +165,9 @@ def check(prog, rep):
     if _pa4(prog, rep, "C04.R5", [prog.own_method("kFlowDecompCycles", "__init__")],
             "the structural repetition bound of ignored edges comes out too small and a decomposable flow is reported infeasible (np.uint8 flows 1, 200, 200, 1: 402 -> 146)") < 1:
         raise _AE4("kFlowDecompCycles.__init__: the sum of the non-ignored flow values was not found")
+    # the default safety pruning of the cyclic models reads nodes_reachable / nodes_reaching: their caches answer for the graph (C17.R1, C17.R2)
+    from rules import c17 as _c17x
+    from sa.alias import AliasModel as _AMx
+    from rules.common import RuleProxy as _RPx
+    _c17x.cache_ownership(prog, _RPx(rep, "C04.R10"), "C17.R1")
+    _c17x.query_purity(prog, _RPx(rep, "C04.R10"), "C17.R2", _AMx(prog))
